@@ -60,12 +60,15 @@ def build_module(module: str, cls: str, vtype: str, lit: str, deps: list[dict[st
 		lines += ['', '']
 	if generic:
 		# own generic class, concrete subclass reading the inherited template-typed field, quoted forward reference G['L'] to a class declared later
-		lines += [f"T_{tag} = TypeVar('T_{tag}')", '', '',
+		lines += [f"T_{tag} = TypeVar('T_{tag}')", f"TK_{tag} = TypeVar('TK_{tag}')", f"TV_{tag} = TypeVar('TV_{tag}')", f"TE_{tag} = TypeVar('TE_{tag}')", '', '',
 			f'class Holder_{tag}(Generic[T_{tag}]):', f'\tvalue: T_{tag}', '', f'\tdef __init__(self, value: T_{tag}) -> None:', '\t\tself.value = value', '', f'\tdef get(self) -> T_{tag}:', '\t\treturn self.value', '', '',
-			f'class IntHolder_{tag}(Holder_{tag}[int]):', '\tcount: int', '', '\tdef __init__(self, value: int) -> None:', '\t\tsuper().__init__(value)', '\t\tself.count = 0', '', '',
-			f'class Tree_{tag}:', '\tn: int', '', '\tdef __init__(self) -> None:', '\t\tself.n = 0', '', f"\tdef first(self) -> 'Holder_{tag}[Leaf_{tag}]':", f'\t\treturn Holder_{tag}(Leaf_{tag}())', '', '',
+			f'class IntHolder_{tag}(Holder_{tag}[int]):', '\tcount: int', '', '\tdef __init__(self, value: int) -> None:', '\t\tsuper().__init__(value)', '\t\tself.count = 0', '',
+			'\tdef twice(self) -> int:', '\t\treturn self.value + self.value', '', '',
+			f'class Tree_{tag}:', '\tn: int', '', '\tdef __init__(self) -> None:', '\t\tself.n = 0', '', f"\tdef first(self) -> 'Holder_{tag}[Leaf_{tag}]':", f'\t\treturn Holder_{tag}(Leaf_{tag}())', '',
+			f'\tdef pick(self, key: TK_{tag}, val: TV_{tag}, ext: TE_{tag}) -> TV_{tag}:', '\t\treturn val', '', '',
 			f'class Leaf_{tag}:', '\tm: int', '', '\tdef __init__(self) -> None:', '\t\tself.m = 1', '', '',
-			f'def make_tree_{tag}() -> Tree_{tag}:', f'\treturn Tree_{tag}()', '', '']
+			f'def make_tree_{tag}() -> Tree_{tag}:', f'\treturn Tree_{tag}()', '', '',
+			f'def dup_{tag}(v: T_{tag}) -> tuple[T_{tag}, T_{tag}]:', '\treturn (v, v)', '', '']
 	if with_enum:
 		lines += [f'class Kind_{tag}(Enum):', '\tA = 0', '\tB = 1', '', '']
 	lines.append(f'class {cls}:')
@@ -140,6 +143,14 @@ def build_module(module: str, cls: str, vtype: str, lit: str, deps: list[dict[st
 		lines.append('\thw = hv')
 		lines.append(f'\ttf = make_tree_{tag}().first()')
 		lines.append('\tlm = tf.value.m')
+		# one type object with nested type arguments at two positions of one symbol's type tree
+		lines.append('\ttb: dict[str, list[int]] = {}')
+		lines.append('\tboth = (tb, tb)')
+		lines.append('\tboth2 = both')
+		lines.append('\trows: list[int] = [k]')
+		lines.append(f'\tdd2 = dup_{tag}(rows)')
+		lines.append('\tdd3 = dd2')
+		lines.append(f"\tpk = make_tree_{tag}().pick('k', 1, 2.5)")
 	for d in deps:
 		t = d['tag']
 		if d.get('generic'):
